@@ -912,7 +912,7 @@ fn stale_link_witness(turn_restriction: bool) -> SCase {
 }
 
 fn opts_for(p: Prop, rng: &mut Rng, quick: bool) -> GenOpts {
-    let max_v = if quick { 9 } else { *rng.pick(&[9usize, 14, 30, 60]) };
+    let max_v = if quick { 9 } else { *rng.pick(&[9usize, 14, 30, 60, 150]) };
     let style = match rng.below(3) {
         0 => LenStyle::TieHeavy,
         1 => LenStyle::Generic,
@@ -937,7 +937,7 @@ fn opts_for(p: Prop, rng: &mut Rng, quick: bool) -> GenOpts {
 }
 
 pub fn run(ctx: &mut Ctx, p: Prop) -> &'static str {
-    let n = ctx.n(500, 8000);
+    let n = ctx.n(500, 60000);
     let mut items: Vec<(SCase, LenStyle)> = corpus(p);
     let n_corpus = items.len();
     for k in 0..n {
